@@ -79,25 +79,26 @@ const fecRecover = "for _, r := range recovers { if len(r) >= 2 { sz := binary.L
 var targets = []target{
 	{"UDPSession", "Read", "read_skel", "FRead", &dict{
 		stmts: merge(timerStmts, map[string]string{
-			"timeout = time.NewTimer(time.Until(trd))":                          "SCall (PTimerNew RD)",
-			"timeout.Reset(time.Until(trd))":                                    "SCall (PTimerReset RD)",
-			"n = copy(b, s.bufptr)":                                             "SCall PNop",
-			"s.bufptr = s.bufptr[n:]":                                           "SCall PAdvanceBuf",
-			"atomic.AddUint64(&DefaultSnmp.BytesReceived, uint64(n))":           "SCall PNop",
-			"atomic.AddUint64(&DefaultSnmp.BytesReceived, uint64(size))":        "SCall PNop",
-			"s.kcp.Recv(b)":                                                     "SCall PRecv",
-			"if cap(s.recvbuf) < size { s.recvbuf = make([]byte, size) }":       "SCall PNop",
-			"s.recvbuf = s.recvbuf[:size]":                                      "SCall PNop",
-			"s.kcp.Recv(s.recvbuf)":                                             "SCall PRecv",
-			"n = copy(b, s.recvbuf)":                                            "SCall PNop",
-			"s.bufptr = s.recvbuf[n:]":                                          "SCall PSetBufRest",
+			"timeout = time.NewTimer(time.Until(trd))":                    "SCall (PTimerNew RD)",
+			"timeout.Reset(time.Until(trd))":                              "SCall (PTimerReset RD)",
+			"n = copy(b, s.bufptr)":                                       "SCall PNop",
+			"s.bufptr = s.bufptr[n:]":                                     "SCall PAdvanceBuf",
+			"atomic.AddUint64(&DefaultSnmp.BytesReceived, uint64(n))":     "SCall PNop",
+			"atomic.AddUint64(&DefaultSnmp.BytesReceived, uint64(size))":  "SCall PNop",
+			"s.kcp.Recv(b)":                                               "SCall PRecv",
+			"if cap(s.recvbuf) < size { s.recvbuf = make([]byte, size) }": "SCall PNop",
+			"s.recvbuf = s.recvbuf[:size]":                                "SCall PNop",
+			"s.kcp.Recv(s.recvbuf)":                                       "SCall PRecv",
+			"n = copy(b, s.recvbuf)":                                      "SCall PNop",
+			"s.bufptr = s.recvbuf[n:]":                                    "SCall PSetBufRest",
 		}),
 		conds: merge(timerConds, map[string]string{
 			"trd, ok := s.rd.Load().(time.Time); ok && !trd.IsZero()": "CDeadlineSet RD",
-			"len(s.bufptr) > 0":                  "CBufNonEmpty",
-			"size := s.kcp.PeekSize(); size > 0": "CPeekPositive",
-			"s.kcp.PeekSize() > 0":               "CPeekPositive", // anticipated repair of F4
-			"len(b) >= size":                     "CData",
+			"len(s.bufptr) > 0":                         "CBufNonEmpty",
+			"size := s.kcp.PeekSize(); size > 0":        "CPeekPositive",
+			"s.kcp.PeekSize() > 0":                      "CPeekPositive", // anticipated repair of F4
+			"len(s.bufptr) > 0 || s.kcp.PeekSize() > 0": "CHasData",      // anticipated repair of F4
+			"len(b) >= size":                            "CData",
 		}),
 		comms: map[string]string{
 			"<-s.chReadEvent":       "RcvReadEvent",
@@ -107,11 +108,11 @@ var targets = []target{
 			"<-s.die":               "RcvDie",
 		},
 		rets: map[string]string{
-			"return n, nil":                                  "RData",
-			"return size, nil":                               "RData",
-			"return 0, errors.WithStack(errTimeout)":         "RTimeout",
-			"return 0, s.socketReadError.Load().(error)":     "RSockErr",
-			"return 0, errors.WithStack(io.ErrClosedPipe)":   "RClosed",
+			"return n, nil":                                "RData",
+			"return size, nil":                             "RData",
+			"return 0, errors.WithStack(errTimeout)":       "RTimeout",
+			"return 0, s.socketReadError.Load().(error)":   "RSockErr",
+			"return 0, errors.WithStack(io.ErrClosedPipe)": "RClosed",
 		},
 		procs: sessProcs,
 	}},
@@ -146,10 +147,10 @@ var targets = []target{
 	}},
 	{"Listener", "AcceptKCP", "accept_skel", "FAcceptKCP", &dict{
 		stmts: map[string]string{
-			"var timeout <-chan time.Time":                   "SCall PNop",
+			"var timeout <-chan time.Time":                  "SCall PNop",
 			"timer := time.NewTimer(time.Until(tdeadline))": "SCall (PTimerNew LRD)",
-			"defer timer.Stop()":                             "SCall PDeferTimerStop",
-			"timeout = timer.C":                              "SAssign VC ETimerC",
+			"defer timer.Stop()":                            "SCall PDeferTimerStop",
+			"timeout = timer.C":                             "SAssign VC ETimerC",
 		},
 		conds: map[string]string{
 			"tdeadline, ok := l.rd.Load().(time.Time); ok && !tdeadline.IsZero()": "CDeadlineSet LRD",
@@ -161,8 +162,8 @@ var targets = []target{
 			"<-l.die":               "RcvLDie",
 		},
 		rets: map[string]string{
-			"return nil, errors.WithStack(errTimeout)":       "RTimeout",
-			"return c, nil":                                  "RAccepted",
+			"return nil, errors.WithStack(errTimeout)": "RTimeout",
+			"return c, nil": "RAccepted",
 			"return nil, l.socketReadError.Load().(error)":   "RSockErr",
 			"return nil, errors.WithStack(io.ErrClosedPipe)": "RClosed",
 		},
@@ -197,6 +198,7 @@ var targets = []target{
 			"s.kcp.flush((IKCP_FLUSH_FULL))":                       "SCall PFlush",
 			"s.kcp.flush(IKCP_FLUSH_FULL)":                         "SCall PFlush",
 			"s.l.closeSession(s.remote)":                           "SCall PNop",
+			"s.l.removeSession(s)":                                 "SCall PNop",
 		},
 		conds: map[string]string{"!once": "CNotOnce", "s.l != nil": "CData", "s.ownConn": "CData"},
 		rets: map[string]string{
@@ -216,27 +218,27 @@ var targets = []target{
 	}},
 	{"UDPSession", "kcpInput", "kcp_input_skel", "FKcpInput", &dict{
 		stmts: map[string]string{
-			"atomic.AddUint64(&DefaultSnmp.InPkts, 1)":                  "SCall PNop",
-			"atomic.AddUint64(&DefaultSnmp.InBytes, uint64(len(data)))": "SCall PNop",
-			"fecFlag := binary.LittleEndian.Uint16(data[4:])":           "SCall PNop",
-			"atomic.AddUint64(&DefaultSnmp.InErrs, 1)":                  "SCall PNop",
-			"var kcpInErrors uint64":                                    "SCall PNop",
-			"f := fecPacket(data)":                                      "SCall PNop",
-			"defer s.mu.Unlock()":                                       "SCall PDeferUnlock",
+			"atomic.AddUint64(&DefaultSnmp.InPkts, 1)":                      "SCall PNop",
+			"atomic.AddUint64(&DefaultSnmp.InBytes, uint64(len(data)))":     "SCall PNop",
+			"fecFlag := binary.LittleEndian.Uint16(data[4:])":               "SCall PNop",
+			"atomic.AddUint64(&DefaultSnmp.InErrs, 1)":                      "SCall PNop",
+			"var kcpInErrors uint64":                                        "SCall PNop",
+			"f := fecPacket(data)":                                          "SCall PNop",
+			"defer s.mu.Unlock()":                                           "SCall PDeferUnlock",
 			"if s.fecDecoder == nil { s.fecDecoder = newFECDecoder(1, 1) }": "SCall PNop",
 			"if f.flag() == typeData { if ret := s.kcp.Input(data[fecHeaderSizePlus2:], IKCP_PACKET_REGULAR, s.ackNoDelay); ret != 0 { kcpInErrors++ } }": "SCall PInput",
 			"recovers := s.fecDecoder.decode(f)": "SCall PNop",
 			fecRecover:                           "SCall PInput",
 			"waitsnd := s.kcp.WaitSnd()":         "SCall PNop",
-			"if kcpInErrors > 0 { atomic.AddUint64(&DefaultSnmp.KCPInErrors, kcpInErrors) }": "SCall PNop",
-			"atomic.AddUint64(&DefaultSnmp.OOBPackets, 1)":                                    "SCall PNop",
+			"if kcpInErrors > 0 { atomic.AddUint64(&DefaultSnmp.KCPInErrors, kcpInErrors) }":                                             "SCall PNop",
+			"atomic.AddUint64(&DefaultSnmp.OOBPackets, 1)":                                                                               "SCall PNop",
 			"if callback := s.callbackForOOB.Load(); callback != nil { callback.(OOBCallBackType)(data[fecHeaderSizePlus2+convSize:]) }": "SCall PNop",
 			"if ret := s.kcp.Input(data, IKCP_PACKET_REGULAR, s.ackNoDelay); ret != 0 { atomic.AddUint64(&DefaultSnmp.KCPInErrors, 1) }": "SCall PInput",
 		},
 		conds: map[string]string{
-			"len(data) < fecHeaderSizePlus2":  "CData",
-			"n := s.kcp.PeekSize(); n > 0":    "CPeekPositive",
-			"waitsnd < int(s.kcp.snd_wnd)":    "CRoom",
+			"len(data) < fecHeaderSizePlus2": "CData",
+			"n := s.kcp.PeekSize(); n > 0":   "CPeekPositive",
+			"waitsnd < int(s.kcp.snd_wnd)":   "CRoom",
 		},
 		rets:  map[string]string{"return": "RVoid"},
 		tags:  map[string]bool{"fecFlag": true},
@@ -275,11 +277,11 @@ var targets = []target{
 	}},
 	{"Listener", "notifyReadError", "l_notify_read_error_skel", "FLNotifyReadError", &dict{
 		stmts: map[string]string{
-			"l.socketReadError.Store(err)": "SCall PStoreErr",
-			"close(l.chSocketReadError)":   "SCall PCloseLErr",
-			"l.sessionLock.RLock()":        "SCall PNop",
+			"l.socketReadError.Store(err)":                            "SCall PStoreErr",
+			"close(l.chSocketReadError)":                              "SCall PCloseLErr",
+			"l.sessionLock.RLock()":                                   "SCall PNop",
 			"for _, s := range l.sessions { s.notifyReadError(err) }": "SCall PPropagateErr",
-			"l.sessionLock.RUnlock()": "SCall PNop",
+			"l.sessionLock.RUnlock()":                                 "SCall PNop",
 		},
 		onces: map[string]string{"l.socketReadErrorOnce": "OLErr"},
 	}},
